@@ -1,0 +1,24 @@
+//go:build verif
+
+// Contract for the decoder of the target group of this curve (comment-only; installed by /verif/gcv gen-contracts).
+// Acceptance-implies-check: SetBytes accepts only buffers of exactly SizeOfGT bytes, and only if each of the 12
+// base-field coordinates was decoded by the strict decoder of the field (canonical encodings only) from a window of
+// exactly one field element, without error - so an accepted string re-encodes to the same bytes. The field decoder
+// is an opaque call captured at every call.
+
+package fptower
+
+//@ func E12.SetBytes
+//@ layer ring fp.Element
+//@ option nomerge
+//@ option opaque-calls
+//@ ghost failed = false
+//@ ghost ncoord = 0
+//@ cut after call SetBytesCanonical #*
+//@ + ghost failed = failed || !isnil(callresult)
+//@ + ghost ncoord = ncoord + 1
+//@ + invariant[window] len(callarg1) == fp.Bytes
+//@ ensures[length] isnil(result) ==> len(e) == SizeOfGT
+//@ ensures[every-coordinate-canonical] isnil(result) ==> !failed && ncoord == 12
+//@ modifies z
+//@ end
